@@ -41,6 +41,7 @@ type worldOpt struct {
 	skips     bool
 	tenants   int
 	configure func(g *kit.Gen)
+	corpus    func(g *kit.Gen) *kit.Corpus // replaces g.Corpus()
 }
 
 func newWorld(rec *kit.Rec, stream uint64, o worldOpt) (*world, error) {
@@ -51,7 +52,12 @@ func newWorld(rec *kit.Rec, stream uint64, o worldOpt) (*world, error) {
 	if o.configure != nil {
 		o.configure(g)
 	}
-	c := g.Corpus()
+	var c *kit.Corpus
+	if o.corpus != nil {
+		c = o.corpus(g)
+	} else {
+		c = g.Corpus()
+	}
 	if o.skips {
 		ix.MarkSkips(g, c)
 	}
